@@ -265,7 +265,7 @@ def run_driver(ctx, spec, idx, replay=None, scale=1, seed_shift=0):
     return rc, txt, cases, stats
 
 
-def judge_cases(ctx, cases, judge_mod, judge_fn, imports=()):
+def judge_cases(ctx, cases, judge_mod, judge_fn, imports=(), scope="N_scope"):
     """returns {case_index: code} for the non-zero verdicts, or raises on coqc failure"""
     if not cases:
         return {}, ""
@@ -278,11 +278,11 @@ def judge_cases(ctx, cases, judge_mod, judge_fn, imports=()):
                 "From NSQV Require Import model.Judge model.Pack %s." % judge_mod]
         for im in imports:
             body.append(im)
-        body += ["Import ListNotations.", "Open Scope N_scope."]
+        body += ["Import ListNotations.", "Open Scope %s." % scope]
         for k, c in enumerate(shard):
             body.append("Definition c%d := %s." % (k, c["coq"]))
         body.append("Definition cases := [%s]." % ";".join("c%d" % k for k in range(len(shard))))
-        body.append("Definition R := Eval vm_compute in failures %s cases." % judge_fn)
+        body.append("Definition R : list (N * N) := Eval vm_compute in failures %s cases." % judge_fn)
         body.append("Print R.")
         open(os.path.join(d, "cases.v"), "w").write("\n".join(body) + "\n")
         jobs.append((si, d))
@@ -486,7 +486,7 @@ def run(plugin, tier, seed, replay_path=None):
                 stats_all["%s.%s" % (drivers[didx]["driver"], k)] = v
         ctx.stage("drivers")
         if harness_err is None:
-            failures, judge_err = judge_cases(ctx, all_cases, plugin.JUDGE[0], plugin.JUDGE[1], getattr(plugin, "JUDGE_IMPORTS", ()))
+            failures, judge_err = judge_cases(ctx, all_cases, plugin.JUDGE[0], plugin.JUDGE[1], getattr(plugin, "JUDGE_IMPORTS", ()), getattr(plugin, "JUDGE_SCOPE", "N_scope"))
         ctx.stage("judge")
 
     # 5. coverage numbers
@@ -553,7 +553,7 @@ def run(plugin, tier, seed, replay_path=None):
             rc, txt, cases, stats = run_driver(ctx, drivers[didx], didx, scale=scale, seed_shift=7919)
             if rc != 0 or not cases:
                 continue
-            f2, e2 = judge_cases(ctx, cases, plugin.JUDGE[0], plugin.JUDGE[1], getattr(plugin, "JUDGE_IMPORTS", ()))
+            f2, e2 = judge_cases(ctx, cases, plugin.JUDGE[0], plugin.JUDGE[1], getattr(plugin, "JUDGE_IMPORTS", ()), getattr(plugin, "JUDGE_SCOPE", "N_scope"))
             cov["evaluations"] += len(cases)
             mf = [(i, code) for i, code in sorted(f2.items()) if code & 2 and not match_known(pid, cases[i], known)]
             if mf:
